@@ -78,7 +78,9 @@ func verifyFunc(prog *Program, fi *FuncInfo, con *FuncContract) (rep *FuncReport
 				rep.Status = "stale"
 				rep.Reason = e.msg
 			default:
-				panic(r)
+				// an internal error of the generator on this function is a limitation of the machinery, never a verdict
+				rep.Status = "out-of-subset"
+				rep.Reason = fmt.Sprintf("govc internal error: %v", r)
 			}
 		}
 		rep.Paths = x.paths
@@ -94,6 +96,7 @@ func verifyFunc(prog *Program, fi *FuncInfo, con *FuncContract) (rep *FuncReport
 			if len(x.stale) > 0 {
 				rep.Status = "stale"
 				rep.Reason = strings.Join(x.stale, "; ")
+				rep.obls = nil
 			}
 		}
 	}()
